@@ -45,9 +45,21 @@ Subset
   fragments    (R1) a target `(file, None, function, var)` translates the run of top-level statements of
                `function` from the first to the last one that binds / mutates `var`, as a function of the
                parameters it reads, returning `var`
-Not in the subset (examples): float arithmetic (`/`, `int(...)`, `**`), bit operations `& | ~ << >>`,
-`.bit_count()`, strings and `str.format`, dicts with heterogeneous values, attribute access that is not
-declared, while, try, break/continue, lambda outside `sort(key=…)`.
+  (S3)         `l[i] = v` / `l[i] op= v` on lists (`pyListSet`), `l.pop(i)` as a statement (`pyListPop` = eraseIdx),
+               `[x] * n` (`pyRepeat`), `x ** <non-negative int literal>`, `import itertools` in a body +
+               `itertools.product(xs, repeat=2)` (`pyProduct2` = flatMap), `int(n ** 0.5)` -> the DECLARED
+               `pyIsqrtFloat` (= Nat.sqrt; that the float computation agrees is a recorded assumption),
+               a parameter of SUM type `None | bool | str | sequence` (`PyArg`, declared per function in
+               FALLBACK_SIGS, never inferred; only `x == "lit"`, `x is None|True|False`, `[x] * n`, `len(x)`,
+               `return x`), declared return types (RETURN_SIGS), `raise Cls(…)` as an error point for the functions
+               of RAISES / fragments with `raises` (`Except PyExc …`; an `if` with a raising branch duplicates the
+               statements that follow into both branches), `while` with explicit fuel (`pyWhile`, only in a fragment
+               whose spec says `fuel`), `.label` / `.dual` / `<` of opaque objects as declared accessors
+  fragments    (S3) declared by a spec in FRAGMENTS: start after the first binding of a variable, run to the end of the
+               function, live locals as parameters, several returned variables, fuel, accessors
+Not in the subset (examples): float arithmetic (`/`, other uses of `int(...)`, `**` with other exponents), bit operations
+`& | ~ << >>`, `.bit_count()`, strings and `str.format`, dicts with heterogeneous values, attribute access that is not
+declared, while without declared fuel, try, break/continue, lambda outside `sort(key=…)`.
 """
 
 import ast
@@ -66,6 +78,7 @@ TARGETS = [
     ("symmetries.py", None, "calc_phase_permutation"),
     ("linalg.py", None, "argsort"),
     ("linalg.py", None, "calc_sub_max_bonds"),
+    ("linalg.py", None, "calc_sub_max_bonds", "tail"),
     ("abelian_core.py", None, "permuted"),
     ("abelian_core.py", None, "without"),
     ("abelian_core.py", None, "accum_for_split"),
@@ -82,7 +95,28 @@ TARGETS = [
     ("networks.py", None, "parse_edges_to_site_info"),
     ("fermionic_core.py", None, "oddpos_dag"),
     ("fermionic_core.py", None, "resolve_combined_oddpos"),
+    ("fermionic_core.py", None, "resolve_combined_oddpos", "scan"),
 ]
+
+# (S3) fragments DECLARED by a spec (key = "<function>.<name>"); nothing here is inferred from the source:
+#   var     the run of top-level statements goes from the first to the last one that binds / mutates `var`
+#   start   "after_first": the run starts AFTER the first statement that binds `var` (that statement — here the float
+#           step — stays out; `var` itself is then a parameter, see `locals`)
+#   end     "function_end": the run goes on to the end of the function (and keeps the function's own `return`)
+#   locals  local variables of the function that are live at the start of the run: they become parameters, with
+#           the declared type
+#   returns the variables returned by the fragment (default: `var`)
+#   fuel    the fragment contains ONE `while` loop: it is translated by `pyWhile` with the extra parameter
+#           `fuel : Nat` (running out of fuel is the distinguished error `PyExc.outOfFuel`)
+#   attrs / lt   attribute accessors and the `__lt__` of the opaque objects (leading parameters)
+#   raises  `raise Cls(...)` is an error point: the fragment returns `Except PyExc …`
+FRAGMENTS = {
+    "calc_sub_max_bonds.tail": dict(var="sub_max_bonds", start="after_first", end="function_end",
+                                    locals=[("sub_max_bonds", ("list", ("int",)))]),
+    "resolve_combined_oddpos.scan": dict(var="i", locals=[("oddpos", ("list", ("obj", "ι"))), ("phase", ("int",))],
+                                         returns=["oddpos", "phase"], fuel=True, raises=True,
+                                         attrs=[("ι", "label"), ("ι", "dual")], lt="ι"),
+}
 
 
 def target_key(t):
@@ -102,7 +136,20 @@ KV = ("tvar", "κ")  # hashable keys / charges: only `==`, `!=` (BEq)
 BV = ("tvar", "β")  # dict values compared with `!=` (BEq)
 IV = ("obj", "ι")  # opaque objects: only declared attribute accessors
 TV_CONSTRAINT = {"α": "[Inhabited α]", "κ": "[BEq κ]", "β": "[BEq β]", "ι": ""}
-OBJ_ATTRS = {"ι": {"dual": BOOL, "dag": ("obj", "ι")}}
+OBJ_ATTRS = {"ι": {"dual": BOOL, "dag": ("obj", "ι"), "label": KV}}
+# (S3) a parameter of SUM type: `None | bool | str | sequence of <elt>` -> `PyArg <elt>` (Gen/Prelude.lean).  Declared per
+# function in UNION_SIGS, never inferred.  Only these uses are translated: `x == "<literal>"`, `x is None|True|False`,
+# `[x] * n` (x read as its None|bool alternative), `len(x)` / `return x` (x read as its sequence alternative).
+
+
+def UNION(elt):
+    return ("union", elt)
+
+
+# (S3) declared return types (a value of a narrower type is injected: bool -> None|bool by `some`, the sum-typed
+# parameter by its sequence alternative) and functions whose `raise` statements are error points (`Except PyExc …`)
+RETURN_SIGS = {"choose_duals": ("list", ("opt", ("bool",)))}
+RAISES = {"choose_duals"}
 # attribute accessors a translated FUNCTION uses on its opaque objects (they become leading parameters)
 FUNC_ATTRS = {"oddpos_dag": [("ι", "dag")]}
 
@@ -152,6 +199,12 @@ def lty(t):
         return f"(List {lty(t[2])} → {lty(t[1])})"
     if k == "unit":
         return "Unit"
+    if k == "union":
+        return f"(PyArg {lty(t[1])})"
+    if k == "nat":
+        return "Nat"
+    if k == "except":
+        return f"(Except PyExc {lty(t[1])})"
     if k == "unk":
         return "_"
     raise U(f"type {t}")
@@ -207,6 +260,7 @@ FALLBACK_SIGS = {
     "calc_fuse_group_info": {"axes_groups": LIST(LIST(INT)), "duals": LIST(BOOL)},
     "get_u1_charges": {"ncharge": INT},
     "get_u1u1_charges": {"ncharge": INT},
+    "choose_duals": {"duals": UNION(OPT(BOOL)), "ndim": INT},
     "ham_tfim_from_edges": {"edges": LIST(("prod", KV, KV))},
     "ham_fermi_hubbard_from_edges": {"edges": LIST(("prod", KV, KV))},
     "ham_fermi_hubbard_spinless_from_edges": {"edges": LIST(("prod", KV, KV))},
@@ -333,6 +387,10 @@ class Fn:
         self.ret_depth = 0  # > 0 inside the body of a `for` that contains `return`
         self.dirty = False  # a type was refined during this pass: translate again
         self.gens = {}  # names bound to a generator expression (consumed once)
+        self.spec = None  # (S3) the declared spec of a fragment target (FRAGMENTS)
+        self.raises = False  # (S3) `raise` is an error point: the function returns `Except PyExc …`
+        self.ret_decl = None  # (S3) declared return type (RETURN_SIGS)
+        self.need_inh = set()  # (S3) opaque object types whose lists are indexed (`[Inhabited ι]`)
 
     # -- helpers
     def note(self, s):
@@ -362,6 +420,18 @@ class Fn:
                 for ov, at in ss["attrs"]:
                     sig.append((f"attr_{at}", FN(OBJ_ATTRS[ov][at], ("obj", ov))))
                     self.note(f"`<object>.{at}` of the opaque objects {ov} is the parameter `attr_{at}`")
+        if self.spec:
+            for ov, at in self.spec.get("attrs", []):
+                sig.append((f"attr_{at}", FN(OBJ_ATTRS[ov][at], ("obj", ov))))
+                self.note(f"`<object>.{at}` of the opaque objects {ov} is the parameter `attr_{at}`")
+            if self.spec.get("lt"):
+                ov = self.spec["lt"]
+                sig.append(("obj_lt", FN(BOOL, ("obj", ov), ("obj", ov))))
+                self.note(f"`x < y` on the opaque objects {ov} (their `__lt__`) is the parameter `obj_lt`")
+            if self.spec.get("fuel"):
+                sig.append(("fuel", ("nat",)))
+                self.note("the `while` loop is translated by `pyWhile` with the explicit parameter `fuel : Nat`; running "
+                          "out of fuel is the error `PyExc.outOfFuel` (the Tie theorem states the bound that suffices)")
         if not self.cls and not self.fragment:
             for ov, at in FUNC_ATTRS.get(self.node.name, []):
                 sig.append((f"attr_{at}", FN(OBJ_ATTRS[ov][at], ("obj", ov))))
@@ -405,6 +475,10 @@ class Fn:
             if t is None:
                 raise U(f"*{a.vararg.arg}: no usable type annotation")
             sig.append((a.vararg.arg, LIST(t)))
+        if self.spec:
+            for ln, lt_ in self.spec.get("locals", []):
+                sig.append((ln, lt_))
+                self.note(f"the local variable `{ln}` (live at the start of the fragment) is the parameter `{ln} : {lty(lt_)}`")
         return sig
 
     # -- expressions: return (lean text, type)
@@ -483,6 +557,19 @@ class Fn:
             op = e.op
             if isinstance(op, ast.Div):
                 raise U(f"float division `{ast.unparse(e)}`")
+            if isinstance(op, ast.Mult) and isinstance(e.left, ast.List) and len(e.left.elts) == 1:
+                # (S3) `[x] * n`: n copies (none for n <= 0)
+                x, tx = self.expr(e.left.elts[0], env)
+                if tx[0] == "union":
+                    if tx[1] != OPT(BOOL):
+                        raise U(f"`{ast.unparse(e)}`: the None|bool alternative of {lty(tx)}")
+                    self.note(f"`{ast.unparse(e.left)}` reads the sum-typed `{x}` as its None|bool alternative (`PyArg.scalar`)")
+                    x, tx = f"(PyArg.scalar {x})", OPT(BOOL)
+                return f"(pyRepeat {x} {self.as_int(e.right, env)})", LIST(tx)
+            if (isinstance(op, ast.Pow) and isinstance(e.right, ast.Constant) and isinstance(e.right.value, int)
+                    and not isinstance(e.right.value, bool) and e.right.value >= 0):
+                # (S3) `x ** <non-negative int literal>` on ints
+                return f"({self.as_int(e.left, env)} ^ ({e.right.value} : Nat))", INT
             if isinstance(op, (ast.BitAnd, ast.BitOr, ast.Invert, ast.LShift, ast.RShift, ast.Pow, ast.MatMult)):
                 raise U(f"operator `{type(op).__name__}` in `{ast.unparse(e)}`")
             a, b = self.as_int(e.left, env), self.as_int(e.right, env)
@@ -521,6 +608,15 @@ class Fn:
             if len(e.ops) != 1:
                 raise U(f"chained comparison `{ast.unparse(e)}`")
             op, l, r = e.ops[0], e.left, e.comparators[0]
+            if isinstance(l, ast.Name) and env.get(l.id, ("?",))[0] == "union":
+                # (S3) the tests on a sum-typed parameter
+                if isinstance(op, ast.Eq) and isinstance(r, ast.Constant) and isinstance(r.value, str):
+                    return f"(PyArg.isStr {l.id} {json.dumps(r.value)})", BOOL
+                if isinstance(op, ast.Is) and isinstance(r, ast.Constant) and r.value is None:
+                    return f"(PyArg.isNone {l.id})", BOOL
+                if isinstance(op, ast.Is) and isinstance(r, ast.Constant) and isinstance(r.value, bool):
+                    return f"(PyArg.isBool {l.id} {'true' if r.value else 'false'})", BOOL
+                raise U(f"`{ast.unparse(e)}` on the sum-typed parameter `{l.id}`")
             if isinstance(op, (ast.Is, ast.IsNot)) and isinstance(r, ast.Constant) and r.value is None:
                 a, ta = self.expr(l, env)
                 if ta[0] != "opt":
@@ -541,6 +637,8 @@ class Fn:
                 raise U(f"`is` outside the `if x is None:` statement form: `{ast.unparse(e)}`")
             a, ta = self.expr(l, env)
             b, tb = self.expr(r, env)
+            if isinstance(op, ast.Lt) and ta == tb and ta[0] == "obj" and "obj_lt" in env:
+                return f"(obj_lt {a} {b})", BOOL  # (S3) the declared `__lt__` of the opaque objects
             if ta != tb or not eq_ok(ta):
                 raise U(f"comparison of {ta[0]} with {tb[0]} in `{ast.unparse(e)}`")
             if isinstance(op, ast.Eq):
@@ -616,6 +714,8 @@ class Fn:
                 i = self.as_int(e.slice, env)
                 if has_unk(t):
                     raise U(f"indexing a list of unknown element type `{ast.unparse(e)}`")
+                if t[1][0] == "obj":
+                    self.need_inh.add(t[1][1])
                 return f"(pyGet {v} {i})", t[1]
             raise U(f"subscript of a {t[0]} in `{ast.unparse(e)}`")
         if isinstance(e, (ast.GeneratorExp, ast.ListComp)):
@@ -672,6 +772,13 @@ class Fn:
             if it.func.id == "reversed" and len(it.args) == 1:
                 a, ta = self.iterable(it.args[0], env)
                 return f"(List.reverse {a})", ta
+        if (isinstance(it, ast.Call) and dotted(it.func) == "itertools.product" and "itertools" in self.imported
+                and len(it.args) == 1 and len(it.keywords) == 1 and it.keywords[0].arg == "repeat"
+                and isinstance(it.keywords[0].value, ast.Constant) and it.keywords[0].value.value == 2
+                and not isinstance(it.keywords[0].value.value, bool)):
+            # (S3) `itertools.product(xs, repeat=2)`: all pairs, the first component varying slowest
+            xs, t = self.iterable(it.args[0], env)
+            return f"(pyProduct2 {xs})", ("prod", t, t)
         if (
             isinstance(it, ast.Call)
             and isinstance(it.func, ast.Attribute)
@@ -780,8 +887,20 @@ class Fn:
             src, et = self.iterable(g.generators[0].iter, env)
             pat, env2 = self.bind(g.generators[0].target, et, env)
             return f"({src}.all (fun {self.binder(pat, et)} => {self.truthy(g.elt, env2)}))", BOOL
+        if (name == "int" and len(args) == 1 and isinstance(args[0], ast.BinOp) and isinstance(args[0].op, ast.Pow)
+                and isinstance(args[0].right, ast.Constant) and type(args[0].right.value) is float
+                and args[0].right.value == 0.5):
+            # (S3) `int(n ** 0.5)` on an int n: the DECLARED integer square root (meaning fixed in Prelude as Nat.sqrt)
+            self.note(f"`{ast.unparse(e)}` is the declared `pyIsqrtFloat` = floor of the exact square root (Nat.sqrt); the "
+                      "float computation `n ** 0.5` agrees with it while n < 2^52 (every square up to 2^52 and its "
+                      "predecessor are exactly representable and correctly rounded) — ASSUMED, not proved; the harness "
+                      "compares the two on a range")
+            return f"(pyIsqrtFloat {self.as_int(args[0].left, env)})", INT
         if name == "len" and len(args) == 1:
             s, t = self.expr(args[0], env)
+            if t[0] == "union":
+                self.note(f"`{ast.unparse(e)}` reads the sum-typed `{s}` as its sequence alternative (`PyArg.asSeq`)")
+                return f"(pyLen (PyArg.asSeq {s}))", INT
             if t[0] != "list":
                 raise U(f"`len` of a {t[0]}")
             return f"(pyLen {s})", INT
@@ -949,9 +1068,15 @@ class Fn:
                         elif not isinstance(n, (ast.Tuple, ast.Store, ast.Load)):
                             raise U(f"assignment target `{ast.unparse(tg)}`")
             elif isinstance(s, ast.AugAssign):
+                if isinstance(s.target, ast.Subscript) and isinstance(s.target.value, ast.Name):
+                    add(s.target.value.id)  # `l[i] += v` re-binds l
+                    continue
                 if not isinstance(s.target, ast.Name):
                     raise U(f"assignment target `{ast.unparse(s.target)}`")
                 add(s.target.id)
+            elif isinstance(s, ast.While):
+                for n in self.assigned(s.body):
+                    add(n)
             elif isinstance(s, ast.Expr) and isinstance(s.value, ast.Call) and isinstance(s.value.func, ast.Attribute):
                 if isinstance(s.value.func.value, ast.Name):
                     add(s.value.func.value.id)
@@ -991,11 +1116,44 @@ class Fn:
                 raise U("`return` inside a loop or a branch that does not end the function")
             if s.value is None:
                 raise U("bare `return`")
+            if (self.fragment and isinstance(s.value, ast.Tuple) and all(isinstance(x, ast.Name) for x in s.value.elts)
+                    and len(s.value.elts) == 1):
+                s = ast.Return(value=s.value.elts[0])
             v, t = self.expr(s.value, env)
+            if self.ret_decl is not None and t != self.ret_decl:
+                # (S3) injection into the DECLARED return type
+                if t == LIST(BOOL) and self.ret_decl == LIST(OPT(BOOL)):
+                    self.note(f"`{ast.unparse(s)}`: a list of bools returned where a list of None|bool is declared: each item is injected by `some`")
+                    v, t = f"({v}.map some)", self.ret_decl
+                elif t[0] == "union" and self.ret_decl == LIST(t[1]):
+                    self.note(f"`{ast.unparse(s)}` reads the sum-typed `{v}` as its sequence alternative (`PyArg.asSeq`)")
+                    v, t = f"(PyArg.asSeq {v})", self.ret_decl
+                else:
+                    raise U(f"`{ast.unparse(s)}` returns {lty(t)} where {lty(self.ret_decl)} is declared")
             self.ret_types.append(t)
+            if self.raises:
+                if self.ret_depth:
+                    raise U("`return` inside a loop of a function with error points")
+                return [f"(Except.ok {v})"]
             if self.ret_depth:
                 return [f"(Except.error {v})"]  # leaves the enclosing `pyForReturn`
             return [v]
+        if isinstance(s, ast.Raise):
+            # (S3) `raise Cls(...)`: an error point (the message is not translated)
+            if not self.raises:
+                raise U(f"`{ast.unparse(s).splitlines()[0][:60]}`: the function is not declared to have error points (RAISES)")
+            ex = s.exc
+            cls = ex.func if isinstance(ex, ast.Call) else ex
+            if s.cause is not None or not isinstance(cls, ast.Name) or not cls.id.endswith(("Error", "Exception")):
+                raise U(f"`{ast.unparse(s).splitlines()[0][:60]}`")
+            self.note(f"`raise {cls.id}(…)` is the error `PyExc.raised \"{cls.id}\"` (the message is not translated)")
+            return [f'(Except.error (PyExc.raised "{cls.id}"))']
+        if isinstance(s, (ast.Import,)) and all(a.name == "itertools" and a.asname is None for a in s.names):
+            # (S3) `import itertools` inside the body: binds the standard module (no effect on the translated state)
+            self.imported.add("itertools")
+            return self.block(rest, env, tail)
+        if isinstance(s, ast.While):
+            return self.while_stmt(s, rest, env, tail)
         if isinstance(s, ast.Assign):
             if len(s.targets) != 1:
                 raise U("chained assignment")
@@ -1036,6 +1194,12 @@ class Fn:
                 s.value = R().visit(newv)
             if isinstance(tg, ast.Subscript) and isinstance(tg.value, ast.Name) and not isinstance(tg.slice, ast.Slice):
                 d = tg.value.id
+                if d in env and env[d][0] == "list" and not has_unk(env[d]) and not pre:
+                    # (S3) `l[i] = v` on a list
+                    v, tv = self.expr(s.value, env)
+                    if tv != env[d][1]:
+                        raise U(f"`{ast.unparse(s)}`: value of type {lty(tv)} stored into {lty(env[d])}")
+                    return [f"let {d} : {lty(env[d])} := pyListSet {d} {self.as_int(tg.slice, env)} {v}"] + self.block(rest, env, tail)
                 if d not in env or env[d][0] != "dict":
                     raise U(f"assignment target `{ast.unparse(tg)}`")
                 k, tk = self.expr(tg.slice, env)
@@ -1065,6 +1229,15 @@ class Fn:
                 return [f"let {pat} : {lty(t)} := {v}"] + self.block(rest, env2, tail)
             raise U(f"assignment target `{ast.unparse(tg)}`")
         if isinstance(s, ast.AugAssign):
+            tg = s.target
+            if (isinstance(tg, ast.Subscript) and isinstance(tg.value, ast.Name) and not isinstance(tg.slice, ast.Slice)
+                    and env.get(tg.value.id) == LIST(INT)):
+                # (S3) `l[i] op= v` on a list of ints: `l[i] = l[i] op v`, the index expression evaluated once (it is pure)
+                d = tg.value.id
+                i = self.as_int(tg.slice, env)
+                b = ast.BinOp(left=ast.Subscript(value=tg.value, slice=tg.slice, ctx=ast.Load()), op=s.op, right=s.value)
+                v = self.as_int(b, env)
+                return [f"let {d} : {lty(env[d])} := pyListSet {d} {i} {v}"] + self.block(rest, env, tail)
             if not isinstance(s.target, ast.Name):
                 raise U(f"assignment target `{ast.unparse(s.target)}`")
             b = ast.BinOp(left=ast.Name(id=s.target.id, ctx=ast.Load()), op=s.op, right=s.value)
@@ -1096,6 +1269,9 @@ class Fn:
             if c.func.attr == "add" and t == SET:
                 x = self.as_int(c.args[0], env)
                 return [f"let {recv.id} : {lty(t)} := pySetAdd {recv.id} {x}"] + self.block(rest, env2, tail)
+            if c.func.attr == "pop" and t[0] == "list" and not has_unk(t):
+                # (S3) `l.pop(i)` as a statement: the popped value is discarded
+                return [f"let {recv.id} : {lty(t)} := pyListPop {recv.id} {self.as_int(c.args[0], env)}"] + self.block(rest, env2, tail)
             if c.func.attr == "append" and t[0] == "list":
                 x, tx = self.expr(c.args[0], env)
                 if has_unk(t):
@@ -1261,6 +1437,14 @@ class Fn:
             )
         if self.contains(s.body + s.orelse, (ast.Return,)):
             raise U("`return` inside a branch that does not end the function / inside a loop")
+        if self.contains(s.body + s.orelse, (ast.Raise,)):
+            # (S3) a branch may raise: both branches are continued by the statements that follow (duplicated)
+            return (
+                [f"if {c} then"]
+                + self.ind(self.paren(self.block(list(s.body) + list(rest), env, tail)))
+                + ["else"]
+                + self.ind(self.paren(self.block(list(s.orelse) + list(rest), env, tail)))
+            )
         names = self.assigned(s.body + s.orelse)
         if not names:
             return self.block(rest, env, tail)
@@ -1331,11 +1515,46 @@ class Fn:
             + self.ind(self.paren(self.block(rest, env, tail)))
         )
 
+    def while_stmt(self, s, rest, env, tail):
+        """(S3) `while c: body` -> `pyWhile fuel state (fun st => c) (fun st => body)`; the body may `raise`"""
+        if not (self.spec and self.spec.get("fuel")) or "fuel" not in env:
+            raise U(f"`{ast.unparse(s).splitlines()[0]}`: a while loop is translated only with declared fuel")
+        if not self.raises:
+            raise U("while loop in a function that is not declared to have error points")
+        if s.orelse or self.contains(s.body, (ast.Break, ast.Continue, ast.Return, ast.While)) or self.ret_depth:
+            raise U("while … else / break / continue / return / nested while")
+        names = self.assigned(s.body)
+        fl_body, fl_rest = free_loads(s.body), free_loads(rest)
+        names = [n for n in names if n in env or n in fl_body or n in fl_rest]
+        if not names:
+            raise U("while loop without state")
+        pat, st = self.state(names, env)
+        k = self.fresh
+        self.fresh += 1
+        stv = f"st{k}"
+        cond = self.truthy(s.test, env)
+        self.ret_depth += 1
+        try:
+            body = self.block(s.body, env, f"(Except.ok {pat})")
+        finally:
+            self.ret_depth -= 1
+        head = [f"match (pyWhile fuel {pat}",
+                f"    (fun ({stv} : {lty(st)}) =>", f"      let {pat} : {lty(st)} := {stv}", f"      {cond})",
+                f"    (fun ({stv} : {lty(st)}) =>"]
+        blk = self.ind([f"let {pat} : {lty(st)} := {stv}"] + body, 6)
+        blk[-1] += ")) with"
+        return (head + blk + [f"| Except.error e{k} => (Except.error e{k})", f"| Except.ok {pat} =>"]
+                + self.ind(self.paren(self.block(rest, env, tail))))
+
     # -- whole function
     def translate(self, lean_name):
         body_stmts = list(self.fragment[1]) if self.fragment else list(self.node.body)
         for st in body_stmts:
             for n in ast.walk(st):
+                if isinstance(n, ast.While) and self.spec and self.spec.get("fuel"):
+                    continue
+                if isinstance(n, ast.Import) and n in body_stmts and all(a.name == "itertools" and not a.asname for a in n.names):
+                    continue
                 if isinstance(n, (ast.While, ast.Try, ast.With, ast.Yield, ast.YieldFrom, ast.Global, ast.Nonlocal,
                                   ast.FunctionDef, ast.ClassDef, ast.Import, ast.ImportFrom)):
                     raise U(f"`{ast.unparse(n).splitlines()[0]}` ({type(n).__name__} statement) in the body")
@@ -1352,11 +1571,17 @@ class Fn:
                     self.note(f"decorator `@{ds}` ignored: the function is pure on the translated types (memoisation is unobservable)")
             else:
                 raise U(f"decorator @{ds}")
+        self.imported = set()
+        if self.spec and self.spec.get("raises") or (not self.fragment and not self.cls and self.node.name in RAISES):
+            self.raises = True
+        if not self.fragment and not self.cls:
+            self.ret_decl = RETURN_SIGS.get(self.node.name)
         sig = self.signature()
         env = dict(sig)
         lines = None
         for it in range(5):  # later passes use the element types refined in the earlier ones
             self.ret_types, self.fresh, self.dirty = [], 0, False
+            self.imported = set()
             try:
                 lines = self.block(body_stmts, env, None)
             except U:
@@ -1376,10 +1601,16 @@ class Fn:
         ann = None if self.fragment else ann_type(self.node.returns)
         if ann is not None and ann != rt and not (ann == BOOL and rt == BOOL):
             raise U(f"declared return type {ast.unparse(self.node.returns)} but the body returns {lty(rt)}")
+        if self.raises:
+            rt = ("except", rt)
         tvs = []
         for _, t in sig:
             tvars(t, tvs)
-        if tvs == ["α"]:
+        if self.need_inh:
+            gen = "{" + " ".join(tvs) + " : Type} " + "".join(
+                (TV_CONSTRAINT[v] or (f"[Inhabited {v}]" if v in self.need_inh else "")) + " " for v in tvs
+                if TV_CONSTRAINT[v] or v in self.need_inh)
+        elif tvs == ["α"]:
             gen = "{α : Type} [Inhabited α] "
         elif tvs:
             gen = "{" + " ".join(tvs) + " : Type} " + "".join(TV_CONSTRAINT[v] + " " for v in tvs if TV_CONSTRAINT[v])
@@ -1390,7 +1621,7 @@ class Fn:
 
         if self.fragment:
             src = "\n".join(textwrap.dedent(ast.get_source_segment(self.src_text, st, padded=True) or "")
-                            for st in self.fragment[1][:-1])
+                            for st in self.fragment[1] if getattr(st, "lineno", None) is not None)
         else:
             src = textwrap.dedent(ast.get_source_segment(self.src_text, self.node, padded=True) or "")
         src = src.replace("/-", "/ -").replace("-/", "- /")
@@ -1479,7 +1710,27 @@ def generate(repo_dir):
         fn.shadowed = BUILTINS & module_names(tree)
         fn.src_text = txt
         fn.where = f"symmray/{fname}, `{key}`"
-        if frag:
+        spec = FRAGMENTS.get(key) if frag else None
+        if spec:
+            # (S3) a fragment declared by a spec
+            var = spec["var"]
+            idx = [i for i, st in enumerate(node.body) if var in _safe_assigned(fn, [st])]
+            if not idx:
+                funcs[key] = f"untranslatable: `{name}` has no top-level statement that binds `{var}`"
+                continue
+            lo = idx[0] + 1 if spec.get("start") == "after_first" else idx[0]
+            hi = len(node.body) if spec.get("end") == "function_end" else idx[-1] + 1
+            stmts = list(node.body[lo:hi])
+            if spec.get("end") != "function_end":
+                rets = spec.get("returns", [var])
+                stmts.append(ast.Return(value=ast.Tuple(elts=[ast.Name(id=r, ctx=ast.Load()) for r in rets], ctx=ast.Load())))
+            fn.fragment = (var, stmts)
+            fn.spec = spec
+            fn.pyname = key
+            what = ("the statements after the one that first binds" if spec.get("start") == "after_first"
+                    else "the statements that compute")
+            fn.where = f"symmray/{fname}, `{name}`: {what} `{var}`" + (", to the end of the function" if spec.get("end") == "function_end" else "")
+        elif frag:
             # the run of top-level statements from the first to the last one that binds / mutates `frag`
             idx = [i for i, st in enumerate(node.body) if frag in _safe_assigned(fn, [st])]
             if not idx:
